@@ -2,7 +2,8 @@
 #
 # Families:
 #   ledger   kll_sketch<Item>, update_tuple_sketch<Item> (= theta_update_sketch_base with a payload), frequent_items_sketch<Item>,
-#            req_sketch<Item> (compactor items_), var_opt_sketch<Item> (data_ with the gap slot / filled_data_)
+#            req_sketch<Item> (compactor items_), var_opt_sketch<Item> (data_ with the gap slot / filled_data_), and (pure cases, R reports live
+#            bytes) hll_sketch / hll_union at block level (impl object, coupon / register array, aux map)
 #            with the tracking allocator vl::talloc and the instrumented vl::Item (harness/ledger_track.hpp) against the
 #            extracted Coq machine coq/LedgerDefs.v: after every operation live item count, total slots of live item buffers
 #            and the hygiene flags are compared EXACTLY with what the model's effect ledger says.
@@ -18,7 +19,9 @@ READY = True
 COQ_PROPS = ['Properties_C19', 'Regression_ledger']
 RULE = ('[ledger] operation scripts over 5 registers holding kll_sketch<Item> (k in 8..200), update_tuple_sketch<Item> (lg_k 5/6, all resize factors), '
         'frequent_items_sketch<Item> (lg_max 3..7, all start sizes), req_sketch<Item> (k 4..20, HRA and LRA; bursts crossing compactions, section-size reductions and '
-        'new levels) or var_opt_sketch<Item> (k 1..100, all resize factors; warm-up growth, the switch to sampling, updates, copies and resets in sampling mode): bursts of updates sized to cross KLL compactions/buffer growth, theta resize/rebuild '
+        'new levels) or var_opt_sketch<Item> (k 1..100, all resize factors; warm-up growth, the switch to sampling, updates, copies and resets in sampling mode); '
+        'plus pure hll_sketch / hll_union cases (lg_k 4..12, all target types; list -> set -> HLL promotions, set and aux-map growth, copies, moves, '
+        'assignments, reset, union updates by lvalue / rvalue incl. down-sampling, get_result of every type) compared on live bytes: bursts of updates sized to cross KLL compactions/buffer growth, theta resize/rebuild '
         'and frequent-items resize/purge; copy construction, move construction, copy assignment incl. self-assignment, move assignment incl. self-move, '
         'merge by reference and by move (moved-from objects are then destroyed or assigned to within the same operation), a = b = c, reset/trim, '
         'query on a temporary copy, destruction, refused configurations and invalid register uses; every case ends with "destroy all". '
@@ -39,7 +42,8 @@ TRUSTED = ['effect-ledger models coq/LedgerKll.v, LedgerTup.v, LedgerFi.v, Ledge
            'theta_update_sketch_base_impl.hpp, reverse_purge_hash_map_impl.hpp, req_compactor_impl.hpp / req_sketch_impl.hpp and var_opt_sketch_impl.hpp (sizes and constructed sets only, no item values); tied to the code by the '
            'exact comparison of live items / live item-buffer slots / flags after every operation of every generated script',
            'hash values (theta compute_hash, fmix64 of the item hash), the REQ table of section sizes nearest_even(k / sqrt(2)^j) (float arithmetic) and the var_opt '
-           '(h_, r_) after each update (weight-dependent) are read from the implementation and passed to the model (theorems hold for ANY values)',
+           '(h_, r_) after each update (weight-dependent), the HLL impl shape (mode, lg_k, type, coupon ints, aux ints) after each operation and the sizeof() of the '
+           'six HLL impl classes are read from the implementation and passed to the model (theorems hold for ANY values)',
            'theta/tuple table: physical slot positions are canonicalised in the model (compact prefix); only counts, sizes and block identity are modelled',
            'instrumentation harness/ledger_track.hpp (tracking allocator with arenas, instrumented item with an address registry) and ASan/LSan/UBSan',
            'the value-semantics part (family vsem) and everything about exceptions is differential TESTING with sanitizers, not proof']
@@ -176,6 +180,77 @@ def gen_ledger(rng, tier):
                 tags.add('invalid')
         ops.append([99])
         cases.append(dict(id='ld%d' % ci, ops=ops, tags=sorted(tags)))
+    return cases + gen_ledger_hll(rng, tier)
+
+
+def gen_ledger_hll(rng, tier):
+    """pure hll_sketch / hll_union cases for the HLL block ledger (R reports the live bytes of the tracking allocator)"""
+    n = 18 if tier == 'quick' else 70
+    cases = []
+    for ci in range(n):
+        ops = []; live = {}      # register -> 7 | 15
+        lg = rng.choice([4, 5, 6, 7, 8, 10, 12]); budget = rng.choice([60, 150, 400])
+        pos = [1]
+        def upd(r, cnt):
+            for _ in range(cnt):
+                ops.append([2, r, pos[0], 1, 0]); pos[0] += rng.choice([1, 7919, 104729])
+        def free():
+            f = [r for r in range(5) if r not in live]
+            return rng.choice(f) if f else None
+        def some(k=None):
+            c = [r for r in live if k is None or live[r] == k]
+            return rng.choice(c) if c else None
+        ops.append([1, 0, 7, lg, rng.randrange(3)]); live[0] = 7
+        while len(ops) < budget:
+            x = rng.random()
+            if x < 0.08:
+                r = free()
+                if r is None: continue
+                if rng.random() < 0.4: ops.append([1, r, 15, rng.choice([lg, lg - 1 if lg > 4 else lg, lg + 2]), 0]); live[r] = 15
+                else: ops.append([1, r, 7, rng.choice([lg, max(4, lg - 2), lg + 2, 3, 22]), rng.choice([0, 1, 2, 2, 3])]); 
+                if ops[-1][2] == 7 and 4 <= ops[-1][3] <= 21 and ops[-1][4] <= 2: live[r] = 7
+            elif x < 0.5:
+                r = some(); upd(r, rng.choice([1, 5, 20, 60, 200 if lg <= 8 else 900]))
+            elif x < 0.58:
+                s_ = some(); r = free()
+                if r is None: continue
+                ops.append([3, r, s_]); live[r] = live[s_]
+            elif x < 0.64:
+                s_ = some(); r = free()
+                if r is None: continue
+                c = [q for q in live if q != s_ and live[q] == live[s_]]
+                if c and rng.random() < 0.5: ops.append([4, r, s_, 1, rng.choice(c)]); live[r] = live[s_]
+                else: ops.append([4, r, s_, 0, 0]); live[r] = live.pop(s_)
+            elif x < 0.70:
+                r = some(); s_ = some(live[r]); ops.append([5, r, s_])
+            elif x < 0.75:
+                r = some(); s_ = some(live[r])
+                if r == s_: ops.append([6, r, s_, 0, 0])
+                else:
+                    c = [q for q in live if q != s_ and live[q] == live[s_]]
+                    if c and rng.random() < 0.5: ops.append([6, r, s_, 1, rng.choice(c)])
+                    else: ops.append([6, r, s_, 0, 0]); live.pop(s_)
+            elif x < 0.86:
+                u = some(15); s_ = some(7)
+                if u is None or s_ is None: ops.append([7, some(), some()]); continue
+                if rng.random() < 0.5: ops.append([7, u, s_])
+                else:
+                    c = [q for q in live if q != s_ and live[q] == 7]
+                    if c and rng.random() < 0.5: ops.append([8, u, s_, 1, rng.choice(c)])
+                    else: ops.append([8, u, s_, 0, 0]); live.pop(s_)
+            elif x < 0.91:
+                u = some(15); r = free()
+                if u is None or r is None: continue
+                ops.append([18, r, u, rng.randrange(3)]); live[r] = 7
+            elif x < 0.94:
+                ops.append([9, some()])
+            elif x < 0.97:
+                r = some()
+                if len(live) > 1: ops.append([10, r]); live.pop(r)
+            else:
+                ops.append([11, some()])
+        ops.append([99])
+        cases.append(dict(id='ldh%d' % ci, ops=ops, tags=['hll-blocks', 'lg%d' % lg]))
     return cases
 
 def oracle_ledger(case, irecs, mrecs):
@@ -672,7 +747,8 @@ MANIFEST = dict(
                 'check: for ANY script of lifecycle operations (construct, update, copy, move, copy-/move-assignment incl. self-assignment and self-move, merge by '
                 'reference / by move, a = b = c, reset, trim, destroy, destroy all) over registers holding the modelled hand-managed buffers — KLL items_, the theta/tuple '
                 'hash table entries_, the frequent-items keys_/values_/states_ triple, the REQ compactor items_ buffers, var_opt data_ (gap slot and filled_data_ as coded) '
-                '— and for ANY hash values / section-size tables / heap sizes: every allocate/deallocate/placement-new/destructor '
+                'and the hll_sketch / hll_union-gadget impl blocks (every change of shape allocates the new blocks and releases each old block once with its size) '
+                '— and for ANY hash values / section-size tables / heap sizes / shape sequences: every allocate/deallocate/placement-new/destructor '
                 'effect the model emits is accepted by the ledger judge (accepted = release with the size of the allocation, of a live block holding no constructed '
                 'slot; construction only over unconstructed slots inside a live block; destruction/read only of constructed slots — C19_accepted_*), so the hygiene flag '
                 'of every step is 0 unless the model reached an Abort outcome; at rest each register\'s ledger is exactly its buffers with exactly the slots its counters '
